@@ -5,8 +5,9 @@
 //! as the gradient oracle.  Shares no code and no algorithm with corgi's `sliced_op`
 //! walker or its reverse-mode scheduling.
 //!
-//! A tensor carries its value and, per input direction, an optional tangent per element
-//! (`None` = structurally zero, so the symbolic execution does not pay for 0·x terms).
+//! A tensor carries its value and, per element, a *sparse* tangent: the list of
+//! (input direction, coefficient) pairs that are structurally non-zero, so the symbolic
+//! execution pays only for the partial derivatives that exist.
 
 use corgi::numbers::Float;
 
@@ -14,8 +15,25 @@ use corgi::numbers::Float;
 pub struct T {
     pub d: Vec<usize>,
     pub v: Vec<Float>,
-    /// tangents: `t[dir][element]`
-    pub t: Vec<Vec<Option<Float>>>,
+    /// sparse tangents: `t[element]` = [(direction, ∂element/∂direction), …]
+    pub t: Vec<Vec<(usize, Float)>>,
+    pub ndir: usize,
+}
+
+/// acc += k · src   (sparse rows)
+fn acc_row(acc: &mut Vec<(usize, Float)>, src: &[(usize, Float)], k: Float) {
+    for &(d, c) in src {
+        let mut found = false;
+        for e in acc.iter_mut() {
+            if e.0 == d {
+                e.1 += k * c;
+                found = true;
+            }
+        }
+        if !found {
+            acc.push((d, k * c));
+        }
+    }
 }
 
 pub fn numel(d: &[usize]) -> usize {
@@ -76,21 +94,6 @@ pub fn bcast_pos(idx: &[usize], d: &[usize]) -> usize {
     p
 }
 
-fn oadd(a: Option<Float>, b: Option<Float>) -> Option<Float> {
-    match (a, b) {
-        (None, None) => None,
-        (Some(x), None) => Some(x),
-        (None, Some(y)) => Some(y),
-        (Some(x), Some(y)) => Some(x + y),
-    }
-}
-fn oscale(a: Option<Float>, s: Float) -> Option<Float> {
-    match a {
-        None => None,
-        Some(x) => Some(x * s),
-    }
-}
-
 #[derive(Clone, Copy, PartialEq, Eq, Debug)]
 pub enum Bin {
     Add,
@@ -107,19 +110,20 @@ impl T {
         T {
             d: d.to_vec(),
             v,
-            t: vec![vec![None; n]; ndir],
+            t: vec![Vec::new(); n],
+            ndir,
         }
     }
     /// An independent variable occupying directions `first .. first+len`.
     pub fn var(d: &[usize], v: Vec<Float>, first: usize, ndir: usize) -> T {
         let mut x = T::konst(d, v, ndir);
         for i in 0..x.v.len() {
-            x.t[first + i][i] = Some(1.0);
+            x.t[i].push((first + i, 1.0));
         }
         x
     }
     pub fn ndir(&self) -> usize {
-        self.t.len()
+        self.ndir
     }
     pub fn len(&self) -> usize {
         self.v.len()
@@ -129,17 +133,12 @@ impl T {
     pub fn map(&self, f: impl Fn(Float) -> Float, df: impl Fn(Float) -> Float) -> T {
         let n = self.len();
         let mut v = Vec::with_capacity(n);
+        let mut t = Vec::with_capacity(n);
         for i in 0..n {
             v.push(f(self.v[i]));
-        }
-        let mut t = Vec::with_capacity(self.ndir());
-        for dir in 0..self.ndir() {
-            let mut row = Vec::with_capacity(n);
-            for i in 0..n {
-                row.push(match self.t[dir][i] {
-                    None => None,
-                    Some(x) => Some(df(self.v[i]) * x),
-                });
+            let mut row = Vec::new();
+            if !self.t[i].is_empty() {
+                acc_row(&mut row, &self.t[i], df(self.v[i]));
             }
             t.push(row);
         }
@@ -147,15 +146,15 @@ impl T {
             d: self.d.clone(),
             v,
             t,
+            ndir: self.ndir,
         }
     }
 
     pub fn bin(&self, op: Bin, o: &T) -> Option<T> {
         let d = bcast_dims(&self.d, &o.d)?;
         let n = numel(&d);
-        let nd = self.ndir();
         let mut v = Vec::with_capacity(n);
-        let mut t: Vec<Vec<Option<Float>>> = vec![Vec::with_capacity(n); nd];
+        let mut t = Vec::with_capacity(n);
         for p in 0..n {
             let idx = unflatten(p, &d);
             let i = bcast_pos(&idx, &self.d);
@@ -167,18 +166,28 @@ impl T {
                 Bin::Mul => x * y,
                 Bin::Div => x / y,
             });
-            for dir in 0..nd {
-                let (dx, dy) = (self.t[dir][i], o.t[dir][j]);
-                t[dir].push(match op {
-                    Bin::Add => oadd(dx, dy),
-                    Bin::Sub => oadd(dx, oscale(dy, -1.0)),
-                    Bin::Mul => oadd(oscale(dx, y), oscale(dy, x)),
-                    // d(x/y) = dx/y - x·dy/y²
-                    Bin::Div => oadd(oscale(dx, 1.0 / y), oscale(dy, -(x / (y * y)))),
-                });
+            let mut row = Vec::new();
+            let (kx, ky) = match op {
+                Bin::Add => (1.0, 1.0),
+                Bin::Sub => (1.0, -1.0),
+                Bin::Mul => (y, x),
+                // d(x/y) = dx/y - x·dy/y²
+                Bin::Div => (1.0 / y, -(x / (y * y))),
+            };
+            if !self.t[i].is_empty() {
+                acc_row(&mut row, &self.t[i], kx);
             }
+            if !o.t[j].is_empty() {
+                acc_row(&mut row, &o.t[j], ky);
+            }
+            t.push(row);
         }
-        Some(T { d, v, t })
+        Some(T {
+            d,
+            v,
+            t,
+            ndir: self.ndir,
+        })
     }
 
     /// `sum(k)`: the last k dimensions collapsed into one unit dimension; k = 0 identity.
@@ -190,24 +199,13 @@ impl T {
         let mut d: Vec<usize> = self.d[..lead].to_vec();
         d.push(1);
         let group = numel(&self.d[lead..]);
-        let n = numel(&d);
-        let mut v = Vec::with_capacity(n);
-        let mut t: Vec<Vec<Option<Float>>> = vec![Vec::with_capacity(n); self.ndir()];
-        for g in 0..n {
-            let mut s = 0.0;
+        self.linear(d, |g| {
+            let mut ts = Vec::with_capacity(group);
             for e in 0..group {
-                s += self.v[g * group + e];
+                ts.push((g * group + e, 1.0));
             }
-            v.push(s);
-            for dir in 0..self.ndir() {
-                let mut s = None;
-                for e in 0..group {
-                    s = oadd(s, self.t[dir][g * group + e]);
-                }
-                t[dir].push(s);
-            }
-        }
-        T { d, v, t }
+            ts
+        })
     }
 
     pub fn reshape(&self, d: &[usize]) -> Option<T> {
@@ -218,6 +216,7 @@ impl T {
             d: d.to_vec(),
             v: self.v.clone(),
             t: self.t.clone(),
+            ndir: self.ndir,
         })
     }
 
@@ -225,23 +224,26 @@ impl T {
     fn linear(&self, d: Vec<usize>, terms: impl Fn(usize) -> Vec<(usize, Float)>) -> T {
         let n = numel(&d);
         let mut v = Vec::with_capacity(n);
-        let mut t: Vec<Vec<Option<Float>>> = vec![Vec::with_capacity(n); self.ndir()];
+        let mut t = Vec::with_capacity(n);
         for p in 0..n {
             let ts = terms(p);
             let mut s = 0.0;
+            let mut row = Vec::new();
             for (q, c) in ts.iter() {
                 s += *c * self.v[*q];
+                if !self.t[*q].is_empty() {
+                    acc_row(&mut row, &self.t[*q], *c);
+                }
             }
             v.push(s);
-            for dir in 0..self.ndir() {
-                let mut s = None;
-                for (q, c) in ts.iter() {
-                    s = oadd(s, oscale(self.t[dir][*q], *c));
-                }
-                t[dir].push(s);
-            }
+            t.push(row);
         }
-        T { d, v, t }
+        T {
+            d,
+            v,
+            t,
+            ndir: self.ndir,
+        }
     }
 
     pub fn scale(&self, c: Float) -> T {
@@ -303,9 +305,8 @@ pub fn matmul(a: &T, at: bool, b: &T, bt: bool, c: Option<&T>) -> Option<T> {
     }
     let batches = numel(&lead);
     let total = batches * m * n;
-    let nd = a.ndir();
     let mut v = Vec::with_capacity(total);
-    let mut t: Vec<Vec<Option<Float>>> = vec![Vec::with_capacity(total); nd];
+    let mut t = Vec::with_capacity(total);
     for bi in 0..batches {
         let lidx = unflatten(bi, &lead);
         let ao = if la.is_empty() { 0 } else { bcast_pos(&lidx, &la) } * ar * ac;
@@ -313,16 +314,16 @@ pub fn matmul(a: &T, at: bool, b: &T, bt: bool, c: Option<&T>) -> Option<T> {
         for r in 0..m {
             for j in 0..n {
                 let mut s = 0.0;
-                let mut ts: Vec<Option<Float>> = vec![None; nd];
+                let mut row = Vec::new();
                 for k in 0..ka {
                     let ai = ao + if at { k * ac + r } else { r * ac + k };
                     let bj = bo + if bt { j * bc + k } else { k * bc + j };
                     s += a.v[ai] * b.v[bj];
-                    for dir in 0..nd {
-                        ts[dir] = oadd(
-                            ts[dir],
-                            oadd(oscale(a.t[dir][ai], b.v[bj]), oscale(b.t[dir][bj], a.v[ai])),
-                        );
+                    if !a.t[ai].is_empty() {
+                        acc_row(&mut row, &a.t[ai], b.v[bj]);
+                    }
+                    if !b.t[bj].is_empty() {
+                        acc_row(&mut row, &b.t[bj], a.v[ai]);
                     }
                 }
                 if let Some(c) = c {
@@ -335,18 +336,21 @@ pub fn matmul(a: &T, at: bool, b: &T, bt: bool, c: Option<&T>) -> Option<T> {
                         bcast_pos(&idx, &c.d)
                     };
                     s += c.v[ci];
-                    for dir in 0..nd {
-                        ts[dir] = oadd(ts[dir], c.t[dir][ci]);
+                    if !c.t[ci].is_empty() {
+                        acc_row(&mut row, &c.t[ci], 1.0);
                     }
                 }
                 v.push(s);
-                for dir in 0..nd {
-                    t[dir].push(ts[dir]);
-                }
+                t.push(row);
             }
         }
     }
-    Some(T { d, v, t })
+    Some(T {
+        d,
+        v,
+        t,
+        ndir: a.ndir,
+    })
 }
 
 fn bcast_dims_or_empty(a: &[usize], b: &[usize]) -> Option<Vec<usize>> {
@@ -380,43 +384,42 @@ pub fn conv(img: &T, fil: &T, stride: (usize, usize)) -> Option<T> {
     d.push(count);
     d.push(orows);
     d.push(ocols);
-    let nd = img.ndir();
     let total = numel(&d);
     let mut v = Vec::with_capacity(total);
-    let mut t: Vec<Vec<Option<Float>>> = vec![Vec::with_capacity(total); nd];
+    let mut t = Vec::with_capacity(total);
     for b in 0..batches {
         for f in 0..count {
             for y in 0..orows {
                 for x in 0..ocols {
                     let mut s = 0.0;
-                    let mut ts: Vec<Option<Float>> = vec![None; nd];
+                    let mut row = Vec::new();
                     for k in 0..depth {
                         for m in 0..fr {
                             for n in 0..fc {
                                 let ii = ((b * depth + k) * rows + (y * sr + m)) * cols + (x * sc + n);
                                 let fi = ((f * depth + k) * fr + m) * fc + n;
                                 s += img.v[ii] * fil.v[fi];
-                                for dir in 0..nd {
-                                    ts[dir] = oadd(
-                                        ts[dir],
-                                        oadd(
-                                            oscale(img.t[dir][ii], fil.v[fi]),
-                                            oscale(fil.t[dir][fi], img.v[ii]),
-                                        ),
-                                    );
+                                if !img.t[ii].is_empty() {
+                                    acc_row(&mut row, &img.t[ii], fil.v[fi]);
+                                }
+                                if !fil.t[fi].is_empty() {
+                                    acc_row(&mut row, &fil.t[fi], img.v[ii]);
                                 }
                             }
                         }
                     }
                     v.push(s);
-                    for dir in 0..nd {
-                        t[dir].push(ts[dir]);
-                    }
+                    t.push(row);
                 }
             }
         }
     }
-    Some(T { d, v, t })
+    Some(T {
+        d,
+        v,
+        t,
+        ndir: img.ndir,
+    })
 }
 
 /// softmax over the last dimension
@@ -426,13 +429,13 @@ pub fn softmax(x: &T, exp: impl Fn(Float) -> Float + Copy) -> T {
     e.bin(Bin::Div, &s).unwrap()
 }
 
-/// Jᵀ·seed for direction `dir`: Σ_j seed_j · ∂result_j/∂dir
-pub fn vjp(result: &T, seed: &[Float], dir: usize) -> Float {
-    let mut s = 0.0;
+/// Jᵀ·seed: for every input direction  Σ_j seed_j · ∂result_j/∂direction
+pub fn vjp_all(result: &T, seed: &[Float]) -> Vec<Float> {
+    let mut g = vec![0.0; result.ndir];
     for j in 0..result.len() {
-        if let Some(x) = result.t[dir][j] {
-            s += seed[j] * x;
+        for &(d, c) in result.t[j].iter() {
+            g[d] += seed[j] * c;
         }
     }
-    s
+    g
 }
